@@ -17,7 +17,10 @@ EXPLANATION = (
     "built-in view; C14.6 sample laws (Box's four boundedness masks select the matching formula, Discrete mask/sum(mask), "
     "MultiDiscrete randint(0, nvec), per-component key split in component order); C14.7 canonical() guards arithmetic on the bounds "
     "by the finiteness tests sample() uses; C14.8 flatten_sample / flat_size traverse one component sequence in one order; C14.9 "
-    "Gymnasium conversions are exhaustive over the space kinds, pass the defining parameters and reject the rest."
+    "Gymnasium conversions are exhaustive over the instantiable space kinds, pass the defining parameters and reject the rest; C14.10 every "
+    "constructor stores its arguments in the like-named fields (bounds not crossed). C14.4 also: the answer of __eq__ for an operand of "
+    "the own class is the conjunction of the comparisons made, none of them tolerance-based. C14.7 also: in each finiteness case "
+    "canonical() selects the midpoint or an end / the finite end (plus a constant step inside) / a finite constant."
 )
 ASSUMPTIONS = [
     "jr.uniform/normal/exponential/randint/choice/bernoulli sample within their documented supports",
@@ -142,16 +145,37 @@ def check(s):
         s.ob("C14.4", con, all(is_false(nz, p.ret) for p in rej) and len(rej) >= (1 if first == {own} else 0), "a foreign `other` compares unequal", loc, key="eq-foreign-false",
              detail="; ".join(show(p.ret, maxlen=60) for p in rej))
         acc = [p for p in paths if p not in rej]
+        # the answer for an `other` of the own class, as one Boolean function of the comparisons made (early `return False`s and the
+        # final expression merged): it must be their plain conjunction - true when all hold, false as soon as one fails
+        disj = []
+        for p in acc:
+            lits = [t if v else ("un", "Not", t) for t, v in p.conds if t != own] + [p.ret]
+            disj.append(("boolop", "And", tuple(lits)) if len(lits) > 1 else lits[0])
+        if disj:
+            whole_fn = nz.boolean(("boolop", "Or", tuple(disj)) if len(disj) > 1 else disj[0])
+            if isinstance(whole_fn, tuple) and whole_fn and whole_fn[0] == "B":
+                conj = whole_fn[2] == 1 << ((1 << len(whole_fn[1])) - 1)
+            else:
+                conj = whole_fn not in (("kb", True), ("kb", False))
+            s.ob("C14.4", con, conj, "equality with a space of the same class is the conjunction of the comparisons made (all must hold)", loc, key="eq-conjunction",
+                 detail=show_term(whole_fn, 300), necessary_for="equality holds exactly between spaces of equal parameters")
         eq_fields = set()
+        # (the comparisons are spread over the paths when the method returns early; eq-conjunction above makes each of them count)
+        all_nodes = set()
+        for p in acc:
+            all_nodes |= set(walk(("tuple", tuple([p.ret] + [t for t, v in p.conds]))))
+        approx = sorted({n_[1][1] for n_ in all_nodes if isinstance(n_, tuple) and n_ and n_[0] == "call" and isinstance(n_[1], tuple) and n_[1][0] == "global"
+                         and n_[1][1].rsplit(".", 1)[-1] in ("allclose", "isclose", "assert_allclose", "approx")})
+        s.ob("C14.4", con, not approx, "parameters are compared exactly (no tolerance-based comparison: it is not transitive and cannot agree with a hash)", loc, key="eq-exact",
+             detail=", ".join(approx), necessary_for="equality holds exactly between spaces of equal parameters and agrees with hashing")
+        for F in PARAM_FIELDS[cls]:
+            both = ("attr", self_, F) in all_nodes and ("attr", other, F) in all_nodes
+            if both:
+                eq_fields.add(F)
+            s.ob("C14.4", f"{con}.{F}", both, f"parameter field `{F}` of both operands enters the comparison", loc, key=f"eq-field-{F}",
+                 detail="; ".join(show(p.ret, maxlen=120) for p in acc), necessary_for="equality holds exactly between spaces of equal parameters")
         for p in acc:
             whole = ("tuple", tuple([p.ret] + [t for t, v in p.conds]))
-            nodes = set(walk(whole))
-            for F in PARAM_FIELDS[cls]:
-                both = ("attr", self_, F) in nodes and ("attr", other, F) in nodes
-                if both:
-                    eq_fields.add(F)
-                s.ob("C14.4", f"{con}.{F}", both, f"parameter field `{F}` of both operands enters the comparison", loc, key=f"eq-field-{F}",
-                     detail=show(p.ret, maxlen=200), necessary_for="equality holds exactly between spaces of equal parameters")
             zips = [c for c in walk(whole) if isinstance(c, tuple) and c and c[0] == "comp" and any(
                 isinstance(it, tuple) and it[0] == "call" and it[1] == ("global", "zip") and not dict((a, v) for a, v in it[3] if a).get("strict") == TRUE
                 for it, cs in c[3])]
@@ -246,7 +270,12 @@ def check(s):
     from .util import fields_initialised
     fields_initialised(s, "C14.4", [c for m_ in sorted(P.modules.values(), key=lambda m__: m__.name) if m_.name.startswith("lerax.space") for c in m_.classes.values()],
                        necessary_for="every space construction yields a space")
-    for r_, n in (("C14.1", 12), ("C14.2", 10), ("C14.3", 20), ("C14.4", 20), ("C14.5", 12), ("C14.6", 12), ("C14.7", 3), ("C14.8", 22), ("C14.9", 24)):
+    # ---------------------------------------------------------------- C14.10 constructor wiring
+    from .util import ctor_wiring
+    n_w = 0
+    for cls in KINDS:
+        n_w += ctor_wiring(s, "C14.10", cls, necessary_for="the bounds / sizes / components a space is built with are the ones it tests membership against and samples from")
+    for r_, n in (("C14.10", 6), ("C14.1", 12), ("C14.2", 10), ("C14.3", 20), ("C14.4", 20), ("C14.5", 12), ("C14.6", 12), ("C14.7", 3), ("C14.8", 22), ("C14.9", 24)):
         s.floor(r_, n)
 
 
@@ -429,6 +458,50 @@ def check_canonical(s):
                 problems.append(f"{show(n, maxlen=80)} reads {show(bnd)} without a finiteness guard")
 
     visit(p.ret, [])
+    # membership by cases: under what the selections establish about the finiteness of each bound, the selected expression is a point
+    # of [low, high]: the midpoint or an end when both are finite, the finite end (or a constant step inside) when one is, any finite
+    # constant when none is
+    from ..norm import padd, pneg
+    from .util import entails as _ent
+    fin_raw = {low: s.ref(b, "jnp.isfinite(self.low)", {"self": self_}), high: s.ref(b, "jnp.isfinite(self.high)", {"self": self_})}
+    mid = nz.canon(s.ref(b, "(self.low + self.high) / 2", {"self": self_}))
+    outside = []
+
+    def const_step(leaf, bnd):
+        d = padd(nz.poly(leaf), pneg(nz.poly(bnd)))
+        if not d:
+            return 0
+        if list(d.keys()) == [()]:
+            return d[()]
+        return None
+
+    def member(leaf, lf, hf):
+        c = nz.canon(leaf)
+        if lf and hf:
+            return c in (mid, nz.canon(low), nz.canon(high))
+        if lf:
+            st = const_step(leaf, low)
+            return st is not None and st >= 0
+        if hf:
+            st = const_step(leaf, high)
+            return st is not None and st <= 0
+        pc = nz.poly(leaf)
+        return not pc or list(pc.keys()) == [()]
+
+    def visit2(n, guards):
+        if isinstance(n, tuple) and n and n[0] == "ite":
+            visit2(n[2], guards + [(n[1], True)])
+            visit2(n[3], guards + [(n[1], False)])
+            return
+        lf, hf = (_ent(nz, guards, fin_raw[low]), _ent(nz, guards, fin_raw[high])) if guards else (None, None)
+        for lf_ in ((True, False) if lf is None else (lf,)):
+            for hf_ in ((True, False) if hf is None else (hf,)):
+                if not member(n, lf_, hf_):
+                    outside.append(f"{show(n, maxlen=80)} when low is {'finite' if lf_ else 'infinite'} and high is {'finite' if hf_ else 'infinite'}")
+
+    visit2(p.ret, [])
+    s.ob("C14.7", "Box.canonical", not outside, "in each finiteness case canonical() selects a point of [low, high] (midpoint or end / finite end / finite constant)", loc,
+         key="canonical-member", detail="; ".join(outside[:4]) or show(p.ret, maxlen=300), necessary_for="canonical() is a member of the space")
     s.ob("C14.7", "Box.canonical", not problems,
          "canonical() reads a bound only where that bound is known finite (the same isfinite tests sample() branches on)", loc, key="unguarded-infinite-bound",
          detail="; ".join(problems) or show(p.ret, maxlen=300), necessary_for="canonical() returns a member also for boxes with infinite bounds (no inf − inf = NaN)")
@@ -448,7 +521,9 @@ def check_canonical(s):
 def check_conversions(s):
     P = s.prog
     b = s.builder(inline=set())
-    kinds_all = {c.name for c in P.subclasses("AbstractSpace")}
+    # the kinds a conversion has to handle are the instantiable ones (no unsatisfied abstract method / variable): an abstract
+    # intermediate base introduced between AbstractSpace and the kinds is not a kind of its own
+    kinds_all = {c.name for c in P.subclasses("AbstractSpace") if not any(P.abstract_members(c))} | {"AbstractSpace"}
     table = {"Discrete": ("n", "n"), "Box": ("low", "low"), "Dict": ("spaces", "spaces"), "Tuple": ("spaces", "spaces"), "MultiBinary": ("n", "n"),
              "MultiDiscrete": ("nvec", "nvec")}
     # gym -> lerax
